@@ -250,6 +250,97 @@ def gen_bytes_cases(rng, per_len, long_n):
     return cs
 
 
+# ------------------------------------------------------------------ shrinking of value cases
+def parse_term(s, i=0):
+    k = s[i]; i += 1
+    if k == 'I':
+        j = i + 1 if s[i] == '-' else i
+        while j < len(s) and s[j].isdigit(): j += 1
+        return ('I', int(s[i:j])), j
+    if k in 'FRB':
+        j = i
+        while j < len(s) and j < i + 16 and s[j] in '0123456789abcdefABCDEF': j += 1
+        return (k, int(s[i:j] or '0', 16)), j
+    if k in 'SP':
+        j = i
+        while j + 1 < len(s) and s[j] in '0123456789abcdefABCDEF' and s[j + 1] in '0123456789abcdefABCDEF': j += 2
+        return (k, bytes.fromhex(s[i:j])), j
+    if k == 'T':
+        j = i
+        while j < len(s) and s[j].isalnum(): j += 1
+        return ('T', s[i:j]), j
+    if k in 'ALU':
+        i += 1; els = []
+        while s[i] != ']':
+            e, i = parse_term(s, i); els.append(e)
+            if s[i] == ',': i += 1
+        return (k, els), i + 1
+    if k in 'HE':
+        i += 1; kvs = []
+        while s[i] != '}':
+            kk, i = parse_term(s, i); i += 1
+            vv, i = parse_term(s, i); kvs.append((kk, vv))
+            if s[i] == ',': i += 1
+        return (k, kvs), i + 1
+    raise ValueError('bad term ' + s[i - 1:])
+
+
+def smaller(v):
+    """Structurally smaller variants of a term (one element / binding dropped, at any depth 1 position)."""
+    k = v[0]
+    if k in 'ALU':
+        for i in range(len(v[1])):
+            yield (k, v[1][:i] + v[1][i + 1:])
+        for i, e in enumerate(v[1]):
+            for e2 in smaller(e):
+                yield (k, v[1][:i] + [e2] + v[1][i + 1:])
+    elif k in 'HE':
+        for i in range(len(v[1])):
+            yield (k, v[1][:i] + v[1][i + 1:])
+        for i, (kk, vv) in enumerate(v[1]):
+            for v2 in smaller(vv):
+                yield (k, v[1][:i] + [(kk, v2)] + v[1][i + 1:])
+    elif k == 'S' and len(v[1]) > 1:
+        yield ('S', v[1][:1])
+
+
+def drop_key(v, key):
+    return (v[0], [kv for kv in v[1] if kv[0] != key])
+
+
+def candidates(a, b):
+    # the same binding / position dropped on both sides first (keeps an equal pair equal)
+    if a[0] in 'HE' and b[0] in 'HE':
+        for kk, _ in a[1]:
+            yield drop_key(a, kk), drop_key(b, kk)
+    if a[0] in 'ALU' and b[0] in 'ALU':
+        for i in range(min(len(a[1]), len(b[1]))):
+            yield (a[0], a[1][:i] + a[1][i + 1:]), (b[0], b[1][:i] + b[1][i + 1:])
+    for a2 in smaller(a): yield a2, b
+    for b2 in smaller(b): yield a, b2
+
+
+class D10(vlib.Differential):
+    def shrink(self, case, fails):
+        if not case.startswith('V '):
+            return case
+        try:
+            p = case[2:].split(' ')
+            a, _ = parse_term(p[0]); b, _ = parse_term(p[1])
+        except Exception:
+            return case
+        budget, improved = 300, True
+        while improved and budget > 0:
+            improved = False
+            for a2, b2 in candidates(a, b):
+                budget -= 1
+                if budget <= 0: break
+                if fails('V %s %s' % (show(a2), show(b2))):
+                    a, b, improved = a2, b2, True
+                    break
+        return 'V %s %s' % (show(a), show(b))
+
+
 # ------------------------------------------------------------------ verdicts
 def fields(line):
     d = {}
@@ -376,12 +467,19 @@ def run(ctx):
         'Tree_Cmp(tree, table) (walk of the table in slot order) is not modelled at value level; only eq(table, tree) is demanded there',
     ]
     ctx.coq()
-    drv = ctx.build_driver('Hash')
+    model_err = None
+    try:
+        drv = ctx.build_driver('Hash')
+    except vlib.ModelBuildError as e:
+        # Generated.v no longer provides what the model needs (a code shape changed): the
+        # implementation-only oracle still runs and looks for a concrete failing input
+        drv, model_err = None, e
+        ctx.notes.append('model build error: %s' % str(e)[-600:])
     h = ctx.build_harness('val_hash.c')
     run_impl = lambda cs: ctx.run_lines(h, cs)[1]
-    run_model = lambda cs: ctx.run_lines(drv, cs, args=['model'])[1]
+    run_model = (lambda cs: ctx.run_lines(drv, cs, args=['model'])[1]) if drv else None
     run_spec = lambda cs: [spec_of(c) for c in cs]
-    d = vlib.Differential(ctx, 'values', run_impl, run_model, run_spec, oracle, corr, nontrivial)
+    d = D10(ctx, 'values', run_impl, run_model, run_spec, oracle, corr, nontrivial)
     rp = os.environ.get('VERIF_REPLAY')
     if rp:
         r = json.load(open(rp))
@@ -399,4 +497,11 @@ def run(ctx):
 
     def extra(dd):
         dd.feed([gen_case(ctx.rng) for _ in range(10 * min(n, 3000))])
+    if (model_err or getattr(ctx, 'proof_broken', None)) and not d.oracle_fail:
+        extra(d)          # broken obligation / model: directed search for a concrete failing input
     d.report(extra)
+    if model_err and not any(not nf for _, nf in ctx.violations):
+        ctx.violation('model', {'kind': 'the Coq model no longer builds against coq/Generated.v regenerated from the source',
+                                'detail': str(model_err)[-3000:], 'theorem_or_file': 'Extract_Hash.v / Generated.v',
+                                'search': 'implementation-only oracle clean on %d cases incl. directed search' % d.ncases},
+                      no_failing_input=True)
